@@ -317,6 +317,15 @@ def _run_label(case):
     ok, res = _try(lambda: Labels(**{field: arg}))
     ctx.entry("ctor", ok, f"{info} -> {_exc(res)}", stored_ok=ok and getattr(res, field) == arg)
     accepted_obj = res if ok else None
+    if ok and isinstance(arg, list) and verdict == MEMBER:
+        # the list handed in stays the caller's: changing it afterwards must not change what was stored (validated)
+        mine = list(arg)
+        ok2, res2 = _try(lambda: Labels(**{field: mine}))
+        if ok2:
+            mine.append("not a member \n of any label format")
+            if getattr(res2, field) != arg:
+                ctx.add(f"C16/Labels/nonmember-stored/through-the-callers-list",
+                        f"{info}: after the caller changed its own list the stored value is {getattr(res2, field)!r}")
     # entry: constructor together with another (valid) field given first
     ok, res = _try(lambda: Labels(**{keep: "keep", field: arg}))
     ctx.entry("ctor-2fields", ok, f"{info} -> {_exc(res)}",
